@@ -129,7 +129,9 @@ CHECKS = {
             H("sched", "sch_timed_plain", 2, 3),
         ] + C14_TIMER3[:2],
     },
-    "C13": {"harnesses": [H("streams", "strm_seq", args=[a]) for a in range(12)] + [H("streams", "strm_sources"),
+    "C13": {"harnesses": [H("streams", "strm_seq", args=[a]) for a in range(12)] + [
+                          # the schedulers of via_stream / typed_via_stream / on_stream answer done once stop was requested (as real ones do)
+                          H("streams", "strm_seq", args=[a, 0, 1], thorough_only=(a not in (3, 6, 7, 11))) for a in range(12)] + [H("streams", "strm_sources"),
                           H("strmrace", "strm_race_stopimm", 3, 4, args=[0]), H("strmrace", "strm_race_stopimm", 3, 4, args=[1]),
                           H("strmrace", "strm_race_takeuntil", 3, 4, args=[0]), H("strmrace", "strm_race_takeuntil", 3, 4, args=[1]),
                           H("strmrace", "strm_race_takeuntil", 3, 4, args=[2])]},
@@ -171,6 +173,7 @@ CHECKS = {
             H("sched", "sch_pool_stop", 3, 5), H("sched", "sch_pool_stop", 3, 5, args=[1, 1]), H("sched", "sch_pool_stop", 3, 4, args=[1, 2], **{"cache-bits": 24}),
             H("sched", "sch_newthread", 3, 4),
             H("sched", "sch_timed_plain", 2, 3),
+            H("sched", "sch_fifo_many", 2, 3, args=[0]), H("sched", "sch_fifo_many", 2, 3, args=[1]),
             H("sched", "sch_tramp"),
             H("sched", "sch_any", 3, 4),
         ],
@@ -306,7 +309,7 @@ def tso_items(items, prop, q=2, t=3):
 # ---- spurious wake-ups ---------------------------------------------------------------------------------------------------
 # Harnesses whose library code waits on a condition variable (manual_event_loop, timed_single_thread_context,
 # static_thread_pool, new_thread_context) once more with --spurious: a wait may return without a notification.
-SPURIOUS_HARNESSES = {"sch_loop", "sch_loop_stop", "sch_loop_token", "sch_single", "sch_pool", "sch_pool_stop", "sch_newthread", "sch_timed_plain",
+SPURIOUS_HARNESSES = {"sch_fifo_many", "sch_loop", "sch_loop_stop", "sch_loop_token", "sch_single", "sch_pool", "sch_pool_stop", "sch_newthread", "sch_timed_plain",
                       "tim_single", "tim_three"}
 
 
